@@ -93,6 +93,20 @@ class LibMap:
             return "(*vf_map_%s_index(%s, %s))" % (tag, em.addr_of(a0), em.E(args[1]))
         if ct0.startswith("struct vf_pair_") and op == "=":
             return "%s = %s" % (em.paren(em.E(a0)), em.E(args[1]))
+        if "reverse_iterator" in (qt(a0) or "") + " " + ((a0.get("type") or {}).get("desugaredQualType") or ""):
+            # std::reverse_iterator represented by its base() pointer p: *it == p[-1], ++it == --p, comparisons of bases
+            if not ct0.endswith("*"):
+                return None
+            if op == "*" and len(args) == 1:
+                return "%s[-1]" % em.paren(em.E(a0))
+            if op in ("++", "--"):
+                rop = "--" if op == "++" else "++"
+                if len(args) == 2:
+                    return "%s%s" % (em.paren(em.E(a0)), rop)
+                return "%s%s" % (rop, em.paren(em.E(a0)))
+            if op in ("==", "!=") and len(args) == 2:
+                return "%s %s %s" % (em.paren(em.E(a0)), op, em.paren(em.E(args[1])))
+            return None
         if is_scalar(ct0) or ct0 == "vf_str":
             # smart pointers, iterators, atomics, string ids: builtin operator on the mapped value
             if op == "->":
@@ -247,6 +261,11 @@ class LibMap:
             return "%sbegin(%s)" % (f, p)
         if name in ("end", "cend"):
             return "%send(%s)" % (f, p)
+        # reverse iterators are represented by their base() pointer: rbegin().base() == end()
+        if name in ("rbegin", "crbegin"):
+            return "%send(%s)" % (f, p)
+        if name in ("rend", "crend"):
+            return "%sbegin(%s)" % (f, p)
         if name == "data":
             return "%sbegin(%s)" % (f, p)
         if name == "erase":
@@ -324,6 +343,26 @@ class LibMap:
                 if tag in em.tm.seq_insts or True:
                     em.tm.seq_insts.setdefault(tag, ct[:-1])
                     return "vf_seq_%s_%s_in(%s, %s, %s)" % (tag, name, em.E(args[0]), em.E(args[1]), em.E(args[2]))
+        if name in ("min_element", "max_element") and len(args) == 2:
+            ct = self.mapped(em, args[0])
+            if ct and ct.endswith("*") and is_scalar(ct[:-1]):
+                tag = em.tm.tag(ct[:-1])
+                em.tm.seq_insts.setdefault(tag, ct[:-1])
+                return "vf_seq_%s_%s_in(%s, %s)" % (tag, name, em.E(args[0]), em.E(args[1]))
+        if name == "sort" and len(args) in (2, 3):
+            # std::sort over a modelled range of scalars, natural order or std::greater<> / std::less<>
+            ct = self.mapped(em, args[0])
+            desc = 0
+            if len(args) == 3:
+                cmp_t = qt(args[2]) or ""
+                if re.match(r"(const )?std::greater<", cmp_t):
+                    desc = 1
+                elif not re.match(r"(const )?std::less<", cmp_t):
+                    return None
+            if ct and ct.endswith("*") and is_scalar(ct[:-1]):
+                tag = em.tm.tag(ct[:-1])
+                em.tm.seq_insts.setdefault(tag, ct[:-1])
+                return "vf_seq_%s_sort_in(%s, %s, %d)" % (tag, em.E(args[0]), em.E(args[1]), desc)
         if name in ("get_pointer",) and len(args) == 1:
             return em.E(args[0])
         if name in MATH1:
@@ -354,6 +393,10 @@ class LibMap:
         if ct is None:
             return None
         args = [a for a in n.get("inner", [])]
+        # defaulted allocator / comparator / hasher arguments of std containers have no counterpart in the models
+        while args and args[-1].get("kind") == "CXXDefaultArgExpr" and \
+                re.search(r"allocator|std::less|std::hash|std::equal_to", qt(args[-1]) or ""):
+            args.pop()
         if ct == "vf_str":
             if not args:
                 return "VF_STR_EMPTY"
